@@ -33,7 +33,7 @@ COMPONENTS = {
     "real": ["pulser sampling", "PulserData", "MPSBackend.run/_run/resume/_run_from_sequence_data", "MPSBackendImpl/NoisyMPSBackendImpl/DMRGBackendImpl incl. __getstate__/__setstate__/save_simulation", "pickle", "all tensor numerics", "kernel file system (tmpfs)"],
     "stubbed": ["wall clock (SimClock)", "uuid1/uuid4 (counter)", "RNG seeding and, for noisy runs, RNG-state restore at resume (coupling)", "minimize_bandwidth (scheduler-chosen permutation)", "process death (directory snapshot + fresh incarnation)"],
 }
-PROBES = ["resume_with_active_root_search", "resume_mid_timestep", "resume_noisy_with_jump_after", "resume_dmrg", "resume_with_reordering", "resume_with_dark_atoms", "second_crash", "third_crash", "resume_from_final_cleanup_state", "clock_jump_in_resumed", "resume_str_arg", "resume_path_arg"]
+PROBES = ["multi_trajectory_resume", "resume_with_active_root_search", "resume_mid_timestep", "resume_noisy_with_jump_after", "resume_dmrg", "resume_with_reordering", "resume_with_dark_atoms", "second_crash", "third_crash", "resume_from_final_cleanup_state", "clock_jump_in_resumed", "resume_str_arg", "resume_path_arg"]
 ASSUMPTIONS = [
     "noisy runs: 'same distribution' is checked by coupling - the resumed incarnation gets the RNG state the snapshot was taken with, so a complete snapshot must reproduce the trajectory exactly",
     "in-process restart (module globals survive); fresh-interpreter restarts are sampled by the selftest",
@@ -64,6 +64,8 @@ def run_one(tape: Tape, tier: str, opts: dict) -> dict:
     noise_kind = "none" if not cfg.get("noise") else ("spam" if "state_prep_error" in cfg["noise"] else "lindblad")
     out: dict[str, Any] = {"scenario": {"register": case["scn"]["atoms"], "ops": case["scn"]["ops"], "slm": case["scn"].get("slm"), "dmm": case["scn"].get("dmm"), "cfg": {k: v for k, v in cfg.items()}, "solver": case["solver"], "perm": [case["perm_kind"], case["perm"]]}}
     try:
+        if case["solver"] == "tdvp" and not cfg.get("noise") and tape.bool(0.08, "multi_trajectory"):
+            return _multi_trajectory(out, H, tape, world, case, seeds, sample)
         ref = C.reference_run(world, case, seeds)
         if ref.error is not None:
             out["skipped"] = f"reference-raised:{ref.error_site}"
@@ -89,6 +91,53 @@ def run_one(tape: Tape, tier: str, opts: dict) -> dict:
         _explore(H, tape, tier, world, case, ref, fw, base, depth=1, ctxkey=ctxkey, sample=sample, noise_kind=noise_kind)
     finally:
         world.close()
+    return _finish(out, H, world, case, sample)
+
+
+def _multi_trajectory(out: dict, H: C.History, tape: Tape, world: World, case: dict, seeds: tuple, sample: dict) -> dict:
+    """A run with n_trajectories > 1 (shot-to-shot amplitude noise): every trajectory autosaves into its own file
+    and deletes it when it finishes.  A crash during trajectory k leaves the file of trajectory k; resuming from it
+    must still give the results of the whole simulation."""
+    cfg = dict(case["cfg"])
+    cfg["noise"] = {"amp_sigma": round(tape.float(0.05, 0.3, "amp_sigma"), 3)}
+    cfg["n_trajectories"] = tape.int(2, 3, "n_trajectories")
+    mcase = {**case, "cfg": cfg}
+    out["scenario"]["cfg"] = cfg
+    ref = C.reference_run(world, mcase, seeds)
+    if ref.error is not None:
+        out["skipped"] = f"reference-raised:{ref.error_site}"
+        return _finish(out, H, world, case, sample)
+    fw = C.forward_run(world, mcase, seeds, (lambda n: cfg["autosave_dt"] + 1.0), None)
+    H.evals += 1
+    if fw.error is not None:
+        H.viol("C26.autosave-breaks-run", fw.error_site or "?", f"multi-trajectory run raised {fw.error!r} with autosave enabled")
+        return _finish(out, H, world, case, sample)
+    names: list[str] = []
+    for w in fw.worlds:
+        for n_ in w["files"]:
+            if n_.startswith(C.PREFIX) and n_.endswith(".dat") and n_ not in names:
+                names.append(n_)
+    if len(names) < 2:
+        H.cases.append(("multi-trajectory|too-few-autosaves", False))
+        return _finish(out, H, world, case, sample)
+    base = names[-1]  # the autosave file of the last trajectory
+    cache: dict = {}
+    cands = [w for w in fw.worlds if M.loadable(w["files"].get(base), cache)[0] and C.stage_of(w, fw.progress_calls) == "run"]
+    if not cands:
+        return _finish(out, H, world, case, sample)
+    w = cands[tape.int(0, len(cands) - 1, "pick_mt")]
+    rs = C.resume_run(world, mcase, {base: w["files"][base]}, base, fw.rng_by_sha.get(M.sha(w["files"][base])), True, (lambda n: 0.003))
+    H.evals += 1
+    H.fault("crash")
+    H.probe("multi_trajectory_resume")
+    H.cases.append((f"multi-trajectory|n={cfg['n_trajectories']}|N{len(case['scn']['atoms'])}", True))
+    where = f"trajectory {len(names)} of {cfg['n_trajectories']}, autosave #{w['save']}"
+    if rs.error is not None:
+        H.viol("C26.resume-raises", f"multi-trajectory|{rs.error_site}", f"resume from {where} raised {rs.error!r}")
+    else:
+        d = R.compare(ref.results, rs.results)
+        if d:
+            H.viol("C26.resume-differs", "multi-trajectory", f"resume from {where} returns the results of that trajectory alone, not of the {cfg['n_trajectories']}-trajectory simulation: {d[:3]}")
     return _finish(out, H, world, case, sample)
 
 
